@@ -35,9 +35,9 @@ type cfg struct {
 func (k cfg) name() string {
 	s := fmt.Sprintf("%s/%s/ntt=%v/N=%d/%s/lin=%d/sigma=%g", k.proto, k.chain.Name, k.ntt, k.n, k.mode, k.lin, k.sigma)
 	switch k.proto {
-	case "bgv-e2s", "bgv-refresh", "bgv-transform":
+	case "bgv-e2s", "bgv-s2e", "bgv-refresh", "bgv-transform":
 		s += fmt.Sprintf("/t=%d/lsh=%d/lout=%d", k.t, k.lsh, k.lout)
-	case "ckks-e2s", "ckks-refresh", "ckks-transform":
+	case "ckks-e2s", "ckks-s2e", "ckks-refresh", "ckks-transform":
 		s += fmt.Sprintf("/slots=%d/scale=%d/in=%d/lsh=%d/lout=%d", k.logSlots, k.logScale, k.inScale, k.lsh, k.lout)
 	}
 	if k.proto == "bgv-transform" || k.proto == "ckks-transform" {
@@ -80,11 +80,11 @@ func scenarios(tier string) []engine.Scenario {
 			fn = func(c *engine.Chooser) { ksLeaf(c, nm, k) }
 		case "pcks":
 			fn = func(c *engine.Chooser) { pcksLeaf(c, nm, k) }
-		case "bgv-e2s":
+		case "bgv-e2s", "bgv-s2e":
 			fn = func(c *engine.Chooser) { bgvE2SLeaf(c, nm, k) }
 		case "bgv-refresh", "bgv-transform":
 			fn = func(c *engine.Chooser) { bgvTransformLeaf(c, nm, k) }
-		case "ckks-e2s":
+		case "ckks-e2s", "ckks-s2e":
 			fn = func(c *engine.Chooser) { ckksE2SLeaf(c, nm, k) }
 		case "ckks-refresh", "ckks-transform":
 			fn = func(c *engine.Chooser) { ckksTransformLeaf(c, nm, k) }
@@ -119,7 +119,7 @@ func main() {
 
 func expect(tier string) []string {
 	e := []string{
-		"proto=ks-shared", "proto=ks-decrypt", "proto=pcks", "proto=bgv-e2s", "proto=bgv-refresh", "proto=bgv-transform", "proto=ckks-e2s", "proto=ckks-refresh", "proto=ckks-transform",
+		"proto=ks-shared", "proto=ks-decrypt", "proto=pcks", "proto=bgv-e2s", "proto=bgv-s2e", "proto=ckks-s2e", "proto=bgv-refresh", "proto=bgv-transform", "proto=ckks-e2s", "proto=ckks-refresh", "proto=ckks-transform",
 		"functional=ks-shared", "functional=ks-decrypt", "functional=pcks", "functional=bgv-e2s-shares-sum", "functional=bgv-s2e-reencrypts", "functional=bgv-refresh", "functional=bgv-transform",
 		"functional=ckks-e2s-shares-sum", "functional=ckks-s2e-reencrypts", "functional=ckks-refresh", "functional=ckks-transform",
 		"merge-mode=full", "merge-mode=leftdeep", "merge-variant=swap", "merge-variant=hop-first", "merge-variant=alias-second",
